@@ -49,6 +49,9 @@ def gen_case(rnd, points):
     for _ in range(points):
         matrix.append([rnd.choice(["bare", "graphical"]), rnd.choice(W_CHOICES)])
     case = {"seed": rnd.randrange(1 << 30), "faults": kinds, "warnings": wk, "selector": sel, "matrix": matrix, "preexisting": rnd.random() < 0.5}
+    if rnd.random() < 0.06 and not kinds:
+        # a fault that exists only under a multi-byte output charset: a tape name of <= 16 characters but > 16 bytes
+        case["charset_fault"] = rnd.choice(["ЖЖЖЖЖЖЖЖЖЖ", "Привет, мир!", "ёжик ёжик ёж", "€€€€€€"])
     if rnd.random() < 0.12:
         # the same identifier first as a (possibly hidden) warning, later as an error
         case["dual"] = rnd.choice(sorted(DUALS))
@@ -114,6 +117,8 @@ def run_case(case, cnt=None, root=None, idset=None):
             clicase.plant(host, rnd, f, where=rnd.choice(names))
         for k in case["warnings"]:
             clicase.plant(host, rnd, faults.render_warning(k, "\t"), where=rnd.choice(host["linked"]))
+        if case.get("charset_fault"):
+            clicase.append_last(host, [f'\tmake_wav "cf9.wav", "{case["charset_fault"]}"'], host["linked"][0])
         if case.get("dual"):
             wl, el, _ = DUALS[case["dual"]]
             first, last = host["linked"][0], host["linked"][-1]
@@ -188,7 +193,7 @@ def run_case(case, cnt=None, root=None, idset=None):
             for p, content in pre.items():
                 with open(os.path.join(work, p), "wb") as fh:
                     fh.write(content)
-            argv = list(host["linked"]) + argv_sel + ["--report-format", fmt] + wsel
+            argv = list(host["linked"]) + argv_sel + ["--report-format", fmt] + wsel + (["--charset", "utf-8"] if case.get("charset_fault") else [])
             r = cli.run_cli(argv, work, scratch, timeout=120, tag=f"p{pt}")
             cnt["cli_runs"] += 1
             if r["stall"]:
@@ -201,6 +206,9 @@ def run_case(case, cnt=None, root=None, idset=None):
             if r["internal_error"]:
                 viol(f"{label}: internal compiler error banner; stderr tail {r['stderr'][-300:]!r}")
                 continue
+            if (case["faults"] or case.get("dual") or case.get("charset_fault")) and r["exit"] == 0:
+                viol(f"{label}: a program with planted faults {case['faults'] or case.get('dual') or 'tape name longer than 16 bytes in utf-8'} assembled successfully "
+                     f"(exit 0, {nerr} error diagnostics): each catalogue fault is an error")
             if (nerr > 0) != (r["exit"] != 0):
                 viol(f"{label}: {nerr} error diagnostics {[e[1] for e in r['events'] if e[0] != 'warning'][:4]} but exit status {r['exit']}")
             if r["exit"] != 0:
